@@ -536,7 +536,7 @@ def run_impl(cmd, lines, timeout):
 def compare(model_args, exe_cmd, lines, timeout=30):
     """like D.compare but the model takes extra arguments; a hang of the real code is a result (rc -999)"""
     rc_c, out_c, err_c = run_impl(exe_cmd, lines, timeout)
-    rc_m, out_m, err_m = D.run_lines([C.driver_exe()] + model_args, lines, timeout=600)
+    rc_m, out_m, err_m = D.run_lines([DRIVER or C.driver_exe()] + model_args, lines, timeout=600)
     if rc_m != 0:
         return {"kind": "model-driver-failed", "rc": rc_m, "stderr": err_m[-2000:]}
     if rc_c == -999:
@@ -711,14 +711,44 @@ def t2_pool(res, tier, broken):
     return nl
 
 
-def run(res, tier, broken):
-    if not os.path.exists(C.driver_exe()):
-        # a failed build of the property's theorems can leave the driver unlinked; it does not depend on them
+DRIVER = None
+
+
+def private_driver():
+    """Other checks relink lean/.lake/build/bin/driver and regenerate Gen/ while this one runs.  Under the
+    pipeline lock: make sure Gen/PoolEnds.lean is this tree's table, (re)link the driver (it does not depend
+    on the property theorems, so it links even when they fail), and work on a private copy."""
+    import shutil
+    from tools import poolgen
+    global DRIVER
+    with C.Lock("pipeline"):
+        poolgen.generate()
         ok, out = C.lake_build(["driver"])
-        if not ok:
+        if not ok or not os.path.exists(C.driver_exe()):
             raise RuntimeError("model driver does not build: " + out[-1500:])
-    n1 = t2_tq(res, tier, broken)
-    n2 = t2_pool(res, tier, broken)
+        d = os.path.join(C.BUILD, "c07")
+        os.makedirs(d, exist_ok=True)
+        DRIVER = os.path.join(d, "driver.%d" % os.getpid())
+        shutil.copy2(C.driver_exe(), DRIVER)
+    return DRIVER
+
+
+def drop_private_driver():
+    global DRIVER
+    if DRIVER and os.path.exists(DRIVER):
+        os.unlink(DRIVER)
+    DRIVER = None
+
+
+def run(res, tier, broken):
+    if broken:
+        res.add_cov(broken_obligations=[{k: (v if k != "errors" else v[:6]) for k, v in b.items()} for b in broken])
+    private_driver()
+    try:
+        n1 = t2_tq(res, tier, broken)
+        n2 = t2_pool(res, tier, broken)
+    finally:
+        drop_private_driver()
     res.add_cov(programs=res.cov.get("tq_programs", 0) + res.cov.get("pool_programs", 0), disagreements_checked=n1 + n2)
 
 
@@ -729,6 +759,9 @@ def replay(res, path):
         return 1
     margs = rep.get("model_args", ["tq"])
     hname = rep.get("harness", "wb_tq")
+    private_driver()
+    import atexit
+    atexit.register(drop_private_driver)
     exe = C.cc_harness(hname, [hname + ".c"], "san")
     cmd = [exe] + list(rep.get("exe_args", []))
     d = compare(margs, cmd, rep["ops"], timeout=10)
